@@ -202,6 +202,10 @@ class ScaledProblem(Problem):
         # copy: the matrix returned by the user (or its data) must not be modified
         jac = jac_orig.tocoo(copy=True)
 
+        if not np.issubdtype(jac.dtype, np.floating):
+            # e.g. a constant Jacobian given with integer entries
+            jac = jac.astype(float)
+
         jac_row = jac.row
         jac_col = jac.col
         jac_data = jac.data
@@ -223,6 +227,9 @@ class ScaledProblem(Problem):
 
         # copy: the matrix returned by the user (or its data) must not be modified
         hess = hess_orig.tocoo(copy=True)
+
+        if not np.issubdtype(hess.dtype, np.floating):
+            hess = hess.astype(float)
 
         hess_row = hess.row
         hess_col = hess.col
